@@ -23,6 +23,7 @@ func init() {
 			"R4": "refusal guard: seat-id stores dominated by active count ≥ 2; refusals only under active count < 2 or unsupported rule",
 			"R5": "scan-helper shape: offsets 1..MaxSeat-1, first match of exactly its predicate, unset otherwise",
 			"R6": "eligibility definition and active-count definition",
+			"R9": "the open step initialises positions only on the first hand and rotates them exactly once on every later hand (shared with C05.R1)",
 			"R8": "waiting arc (dealer, bb) exclusive at both ends, also across the wrap (shared with C05.R5): the rotation re-evaluates non-active seats with it before choosing the next big blind",
 			"R7": "first positions: BB = chosen active seat; heads-up dealer = SB = the other active seat; otherwise SB = previous active seat of the new BB and dealer = previous active seat of the new SB; short deck dealer = chosen seat",
 		},
@@ -295,6 +296,9 @@ func checkC04(c *Ctx) {
 	// ---------------- R8 the waiting arc the rotation re-evaluates is open at both ends
 	// (an arc that includes the big-blind seat makes the player due for the big blind wait)
 	checkWaitingArc(c, "R8", smT)
+
+	// ---------------- R9 the rotation is driven once per hand by the open step
+	checkOpenRotation(c, "R9")
 
 	// ---------------- rotation
 	rotW := p.Method(smT, "RotatePositions")
